@@ -1,4 +1,7 @@
 import SJ.Proofs.Tables
+import SJ.Proofs.Number
+import SJ.Proofs.BlockScan
+import SJ.Generated.Consts
 /-
 C01 — Parse accepts exactly the JSON grammar (object or array at the root).
 Theorems about the validators' tables; the statement about the whole parser is in progress (see DESIGN.md §7).
@@ -30,5 +33,31 @@ theorem C01_classes (b : UInt8) :
 
 /-- `jsonMarkup` (decides which trailing index of a buffer is carried over) is the structural class. -/
 theorem C01_markup (b : UInt8) : isMarkup b = (b == 123 || b == 125 || b == 91 || b == 93 || b == 44 || b == 58) := markup_spec b
+
+open SJ.NumberProofs in
+/-- **Numbers (all of them).** For every buffer whose first byte is `-` or a digit (the only ones stage 2 hands
+    over), `parseNumber` accepts exactly the RFC 8259 number literals that are followed by an end-of-value byte
+    and whose value is finite, and returns the value C03 states; everything else is rejected. -/
+theorem C01_number_iff (buf : Bytes) (start : Nat) (hstart : NumStart (buf.toList.drop start)) :
+    parseNumber buf start =
+      match Spec.numberLit (buf.toList.drop start) with
+      | some (l, r) => if Stop r then (Spec.numValue l).map encode else none
+      | none => none := parseNumber_spec buf start hstart
+
+/-- Superfluous leading zeros are rejected with or without a minus sign, on the integer and on the float path,
+    whatever follows. -/
+theorem C01_leading_zero (neg : Bool) (d : UInt8) (more : List UInt8) (hd : isDigit d = true) :
+    parseNumber ((if neg then [45] else []) ++ 48 :: d :: more).toArray 0 = none :=
+  SJ.NumberProofs.leading_zero_rejected neg d more hd
+
+/-- **Stage 1, every message, both kernel families.** The block loop over the 64-byte block function assembled
+    from the regenerated assembly fragments (tail padded with spaces) yields the same verdict and the same
+    structural indices as the per-byte scanner. -/
+theorem C01_stage1_blocks (avx512 nd : Bool) (msg : Bytes) : stage1 nd msg = SJ.Block.stage1Blocks avx512 nd msg :=
+  SJ.Block.stage1_eq_blocks avx512 nd msg
+
+/-- Room for one more block and the tail block in every index buffer (otherwise the assembly's unchecked
+    stores leave the slot). -/
+theorem C01_buffer_bound : Generated.cindexSizeWithSafetyBuffer + 64 + 64 ≤ Generated.cindexSize := by decide
 
 end SJ.Properties.C01
